@@ -71,6 +71,7 @@ type eCase struct {
 	opts      map[string]bool
 	asmNodes  map[string][]byte
 	preferAsm bool // generator hint: serve through the assembler more often
+	preferLp  bool // generator hint: also serve with a long-lived engine that has a persister
 }
 
 func (c *eCase) opt(k string) bool { return c.opts != nil && c.opts[k] }
@@ -867,8 +868,46 @@ func (c *eCase) run(mode string) []reqRec {
 		}
 		return recs
 	}
-	// persisted: a fresh engine and persister per request over one store
 	ctx := context.Background()
+	if mode == "lp" {
+		// one long-lived engine that is given a persister (over an empty store) instead of a state and a cache
+		rs := &recRes{c: c, ncalls: &ncalls}
+		store := memdb.NewMemDb()
+		store.Connect(ctx, "")
+		pe := persist.NewPersister(store)
+		rstore, rclean := c.resStore()
+		defer rclean()
+		en := engine.NewEngine(cfg, c.resourceFor(rs, rstore)).WithPersister(pe)
+		if f := rs.firstFunc(); f != nil {
+			en = en.WithFirst(f)
+		}
+		stopped := false
+		for _, in := range c.inputs {
+			if stopped {
+				recs = append(recs, reqRec{x: "stopped"})
+				continue
+			}
+			rs.calls, rs.lookups = nil, nil
+			rec := reqRec{}
+			oneRequest(en, in, &rec)
+			st := pe.GetState()
+			ca, _ := pe.GetMemory().(*cache.Cache)
+			if st == nil || ca == nil {
+				// refused before the engine was prepared: the session is what a new one would be
+				st, ca = state.NewState(uint32(c.flags)), cache.NewCache()
+				if c.cache > 0 {
+					ca = ca.WithCacheSize(uint32(c.cache))
+				}
+			}
+			fillRec(&rec, st, ca, rs)
+			recs = append(recs, rec)
+			if rec.x == "panic" || rec.f == "panic" {
+				stopped = true
+			}
+		}
+		return recs
+	}
+	// persisted: a fresh engine and persister per request over one store
 	store := memdb.NewMemDb()
 	store.Connect(ctx, "")
 	return c.runPers(store, c.inputs, &ncalls, nil)
@@ -994,7 +1033,7 @@ func init() {
 			engineOracles(c, ec, recs)
 			var outs []string
 			for _, r := range recs {
-				outs = append(outs, r.line(ec.mode != "long"))
+				outs = append(outs, r.line(ec.mode == "pers"))
 			}
 			c.Count("mode:" + ec.mode)
 			if ec.res != "" {
